@@ -132,8 +132,10 @@ Proof.
 Qed.
 
 (* ---------------------------------------------------------------- invariant *)
-Definition x_inv (x : xstr) : Prop :=
-  length (x_mem x) = x_asize x /\ x_size x < x_asize x /\ nth (x_size x) (x_mem x) (-1)%Z = 0%Z.
+(* x_invt x t: the buffer has asize bytes, there is room for a terminator, and the byte at offset size is t (t = 0: terminated) *)
+Definition x_invt (x : xstr) (t : Z) : Prop :=
+  length (x_mem x) = x_asize x /\ x_size x < x_asize x /\ nth (x_size x) (x_mem x) (-1)%Z = t.
+Definition x_inv (x : xstr) : Prop := x_invt x 0%Z.
 
 Lemma AUNIT_pos : 0 < AUNIT.
 Proof. apply Nat.ltb_lt. reflexivity. Qed.
@@ -157,9 +159,9 @@ Proof.
   split; [exact H1 | exact H2].
 Qed.
 
-Lemma x_data_length : forall x, x_inv x -> length (x_data x) = x_size x.
+Lemma x_data_length : forall x t, x_invt x t -> length (x_data x) = x_size x.
 Proof.
-  intros x [Hl [Hs Ht]]. unfold x_data. apply firstn_length_le. lia.
+  intros x t [Hl [Hs Ht]]. unfold x_data. apply firstn_length_le. lia.
 Qed.
 
 Lemma x_newasize_ge : forall a n, n <= x_newasize a n /\ a <= x_newasize a n.
@@ -170,15 +172,15 @@ Proof.
   - lia.
 Qed.
 
-Lemma x_ensure_spec : forall x n, x_inv x ->
-  x_inv (x_ensure x n) /\ x_size (x_ensure x n) = x_size x /\
+Lemma x_ensure_spec : forall x n t, x_invt x t ->
+  x_invt (x_ensure x n) t /\ x_size (x_ensure x n) = x_size x /\
   x_data (x_ensure x n) = x_data x /\ n <= x_asize (x_ensure x n).
 Proof.
-  intros x n Hinv. destruct Hinv as [Hl [Hs Ht]]. unfold x_ensure.
+  intros x n t Hinv. destruct Hinv as [Hl [Hs Ht]]. unfold x_ensure.
   destruct (x_asize x <? n) eqn:E; [apply Nat.ltb_lt in E | apply Nat.ltb_ge in E].
   - destruct (x_newasize_ge (x_asize x) n) as [G1 G2].
     set (a := x_newasize (x_asize x) n) in *.
-    unfold x_inv, x_data. simpl.
+    unfold x_invt, x_data. simpl.
     rewrite xresize_grow by lia.
     split; [split; [| split] | split; [| split]].
     + rewrite app_length, repeat_length. lia.
@@ -187,15 +189,15 @@ Proof.
     + reflexivity.
     + apply firstn_app_le. lia.
     + exact G1.
-  - unfold x_inv. repeat split; try assumption.
+  - unfold x_invt. repeat split; try assumption.
 Qed.
 
 (* ---------------------------------------------------------------- the calls *)
-Lemma x_cat_spec : forall x bs, x_inv x ->
+Lemma x_cat_spec : forall x bs t, x_invt x t ->
   x_inv (x_cat x bs) /\ x_data (x_cat x bs) = x_data x ++ bs.
 Proof.
-  intros x bs Hinv. unfold x_cat.
-  destruct (x_ensure_spec x (x_size x + length bs + 1) Hinv) as [Hinv1 [Hsz [Hd Hcap]]].
+  intros x bs t Hinv. unfold x_cat.
+  destruct (x_ensure_spec x (x_size x + length bs + 1) t Hinv) as [Hinv1 [Hsz [Hd Hcap]]].
   set (x1 := x_ensure x (x_size x + length bs + 1)) in *.
   destruct Hinv1 as [Hl [Hs Ht]].
   set (m := xwrite (x_mem x1) (x_size x1) bs).
@@ -205,11 +207,11 @@ Proof.
   rewrite xwrite_firstn_end by lia. rewrite <- Hd. reflexivity.
 Qed.
 
-Lemma x_unshift_spec : forall x bs, x_inv x ->
+Lemma x_unshift_spec : forall x bs t, x_invt x t ->
   x_inv (x_unshift x bs) /\ x_data (x_unshift x bs) = bs ++ x_data x.
 Proof.
-  intros x bs Hinv. unfold x_unshift.
-  destruct (x_ensure_spec x (x_size x + length bs + 1) Hinv) as [Hinv1 [Hsz [Hd Hcap]]].
+  intros x bs t Hinv. unfold x_unshift.
+  destruct (x_ensure_spec x (x_size x + length bs + 1) t Hinv) as [Hinv1 [Hsz [Hd Hcap]]].
   set (x1 := x_ensure x (x_size x + length bs + 1)) in *.
   destruct Hinv1 as [Hl [Hs Ht]].
   set (m0 := if Nat.eqb (x_size x1) 0 then x_mem x1
@@ -231,10 +233,10 @@ Proof.
   rewrite Hm0d. rewrite Hd. reflexivity.
 Qed.
 
-Lemma x_shift_spec : forall x n0, x_inv x ->
-  x_inv (x_shift x n0) /\ x_data (x_shift x n0) = skipn n0 (x_data x).
+Lemma x_shift_spec : forall x n0 t, x_invt x t ->
+  x_invt (x_shift x n0) (if Nat.eqb n0 0 then t else 0%Z) /\ x_data (x_shift x n0) = skipn n0 (x_data x).
 Proof.
-  intros x n0 Hinv. unfold x_shift.
+  intros x n0 t Hinv. unfold x_shift.
   destruct (Nat.eqb n0 0) eqn:E0.
   - apply Nat.eqb_eq in E0. subst n0. split; [exact Hinv | reflexivity].
   - apply Nat.eqb_neq in E0. destruct Hinv as [Hl [Hs Ht]].
@@ -257,11 +259,11 @@ Proof.
       rewrite skipn_all2; [reflexivity |]. rewrite firstn_length_le by lia. lia.
 Qed.
 
-Lemma x_pop_spec : forall x n0, x_inv x ->
-  x_inv (x_pop x n0) /\ x_data (x_pop x n0) = firstn (length (x_data x) - n0) (x_data x).
+Lemma x_pop_spec : forall x n0 t, x_invt x t ->
+  x_invt (x_pop x n0) (if Nat.eqb n0 0 then t else 0%Z) /\ x_data (x_pop x n0) = firstn (length (x_data x) - n0) (x_data x).
 Proof.
-  intros x n0 Hinv. unfold x_pop.
-  assert (Hdl : length (x_data x) = x_size x) by (apply x_data_length; exact Hinv).
+  intros x n0 t Hinv. unfold x_pop.
+  assert (Hdl : length (x_data x) = x_size x) by (apply (x_data_length x t); exact Hinv).
   destruct (Nat.eqb n0 0) eqn:E0.
   - apply Nat.eqb_eq in E0. subst n0. split; [exact Hinv |].
     rewrite Nat.sub_0_r. symmetry. apply firstn_all.
@@ -275,17 +277,17 @@ Proof.
     rewrite firstn_firstn. f_equal. lia.
 Qed.
 
-Lemma x_clear_spec : forall x, x_inv x -> x_inv (x_clear x) /\ x_data (x_clear x) = [].
+Lemma x_clear_spec : forall x t, x_invt x t -> x_inv (x_clear x) /\ x_data (x_clear x) = [].
 Proof.
-  intros x Hinv. destruct Hinv as [Hl [Hs Ht]]. unfold x_clear.
+  intros x t Hinv. destruct Hinv as [Hl [Hs Ht]]. unfold x_clear.
   destruct (mk_term_inv (x_mem x) 0 (x_asize x) Hl) as [H1 H2]; [lia |].
   split; [exact H1 | exact H2].
 Qed.
 
-Lemma x_clone_spec : forall x, x_inv x ->
+Lemma x_clone_spec : forall x t, x_invt x t ->
   x_inv (x_clone x) /\ x_data (x_clone x) = x_data x /\ x_size (x_clone x) = x_size x.
 Proof.
-  intros x Hinv. destruct Hinv as [Hl [Hs Ht]]. unfold x_clone.
+  intros x t Hinv. destruct Hinv as [Hl [Hs Ht]]. unfold x_clone.
   set (m0 := repeat JUNK (x_asize x)).
   assert (Hm0l : length m0 = x_asize x) by apply repeat_length.
   set (m1 := if Nat.eqb (x_size x) 0 then m0 else xwrite m0 0 (xslice (x_mem x) 0 (x_size x))).
@@ -299,24 +301,24 @@ Proof.
   - unfold xwrite. simpl. rewrite firstn_app_len0 by exact Hsl. reflexivity.
 Qed.
 
-Lemma x_insert_spec : forall x pos bs, x_inv x ->
-  x_inv (fst (x_insert x pos bs)) /\
+Lemma x_insert_spec : forall x pos bs t, x_invt x t ->
+  x_invt (fst (x_insert x pos bs)) t /\
   (x_size x < pos ->
      snd (x_insert x pos bs) = X_OOB /\ x_data (fst (x_insert x pos bs)) = x_data x) /\
   (pos <= x_size x ->
      snd (x_insert x pos bs) = X_OK /\
      x_data (fst (x_insert x pos bs)) = firstn pos (x_data x) ++ bs ++ skipn pos (x_data x)).
 Proof.
-  intros x pos bs Hinv. unfold x_insert.
+  intros x pos bs t Hinv. unfold x_insert.
   destruct (x_size x <? pos) eqn:E0; [apply Nat.ltb_lt in E0 | apply Nat.ltb_ge in E0].
   { simpl. split; [exact Hinv |]. split; [intros _; split; reflexivity | intros H; lia]. }
-  assert (Hdl : length (x_data x) = x_size x) by (apply x_data_length; exact Hinv).
+  assert (Hdl : length (x_data x) = x_size x) by (apply (x_data_length x t); exact Hinv).
   destruct (Nat.eqb (length bs) 0) eqn:E1.
   { apply Nat.eqb_eq in E1. apply length_zero_iff_nil in E1. subst bs. simpl.
     split; [exact Hinv |]. split; [intros H; lia |]. intros _. split; [reflexivity |].
     symmetry. apply firstn_skipn. }
   apply Nat.eqb_neq in E1. simpl.
-  destruct (x_ensure_spec x (x_size x + length bs + 1) Hinv) as [Hinv1 [Hsz [Hd Hcap]]].
+  destruct (x_ensure_spec x (x_size x + length bs + 1) t Hinv) as [Hinv1 [Hsz [Hd Hcap]]].
   set (x1 := x_ensure x (x_size x + length bs + 1)) in *.
   destruct Hinv1 as [Hl [Hs Ht]].
   rewrite <- Hd. rewrite <- Hsz in E0, Hcap. clear Hd Hdl Hinv.
@@ -337,11 +339,11 @@ Proof.
     by (rewrite app_length, firstn_length_le by lia; reflexivity).
   assert (Hsl1 : firstn (n - pos) sl = skipn pos (firstn n M)).
   { unfold sl, xslice. rewrite firstn_firstn. rewrite skipn_firstn_comm. f_equal. lia. }
-  assert (Hsl2 : nth (n - pos) sl (-1)%Z = 0%Z).
+  assert (Hsl2 : nth (n - pos) sl (-1)%Z = t).
   { unfold sl, xslice. rewrite nth_firstn_lt by lia. rewrite nth_skipn_add.
     replace (pos + (n - pos)) with n by lia. exact Ht. }
   split; [| split; [intros H; lia |]].
-  - unfold x_inv. simpl. split; [| split].
+  - unfold x_invt. simpl. split; [| split].
     + rewrite xwrite_length by lia. lia.
     + lia.
     + rewrite Hfin. rewrite app_assoc.
@@ -357,56 +359,294 @@ Proof.
     replace (Nat.min pos n) with pos by lia. reflexivity.
 Qed.
 
-(* ---------------------------------------------------------------- simulation *)
-Lemma obs_eq : forall x' s' (rc : xrc), x_inv x' -> x_data x' = s' ->
-  (rc, x_size x', x_data x', x_term x') = (rc, length s', s', 0%Z).
+(* ---------------------------------------------------------------- iwxstr_set_size *)
+(* shrinking (or keeping) the size: no reallocation, the data is cut, and the byte where the terminator belongs is the old data
+   byte n - or the old terminator byte when n = size: set_size writes none *)
+Lemma x_set_size_shrink : forall x n t, x_invt x t -> n <= x_size x ->
+  x_invt (x_set_size x n) (nth n (x_data x ++ [t]) 0%Z) /\ x_data (x_set_size x n) = firstn n (x_data x) /\
+  x_asize (x_set_size x n) = x_asize x.
 Proof.
-  intros x' s' rc Hinv Hd.
-  assert (Hl : length (x_data x') = x_size x') by (apply x_data_length; exact Hinv).
+  intros x n t Hinv Hn. assert (Hdl := x_data_length x t Hinv). destruct Hinv as [Hl [Hs Ht]].
+  unfold x_set_size, x_ensure.
+  assert (E : (x_asize x <? n + 1) = false) by (apply Nat.ltb_ge; lia). rewrite E.
+  unfold x_invt, x_data. cbn [x_mem x_size x_asize]. split; [split; [exact Hl | split; [lia |]] | split; [| reflexivity]].
+  - destruct (Nat.eq_dec n (x_size x)) as [En | Nn].
+    + subst n. rewrite app_nth2 by (rewrite firstn_length_le by lia; lia).
+      rewrite firstn_length_le by lia. rewrite Nat.sub_diag. cbn [nth]. exact Ht.
+    + rewrite app_nth1 by (rewrite firstn_length_le by lia; lia).
+      rewrite nth_firstn_lt by lia. apply nth_indep. lia.
+  - rewrite firstn_firstn. f_equal. lia.
+Qed.
+
+(* growing: the buffer is enlarged when needed (asize > n afterwards), the old data and the byte after it stay where they
+   were; the bytes between are whatever the memory held (the caller is expected to have written them through iwxstr_ptr) *)
+Theorem x_set_size_grow : forall x n t, x_invt x t -> x_size x < n ->
+  let x' := x_set_size x n in
+  x_size x' = n /\ n < x_asize x' /\ length (x_mem x') = x_asize x' /\
+  firstn (x_size x) (x_mem x') = x_data x /\ nth (x_size x) (x_mem x') (-1)%Z = t /\
+  x_asize x <= x_asize x'.
+Proof.
+  intros x n t Hinv Hn x'. unfold x', x_set_size.
+  destruct (x_ensure_spec x (n + 1) t Hinv) as [[Hl [Hs Ht]] [Hsz [Hd Hcap]]].
+  cbn [x_mem x_size x_asize]. split; [reflexivity |]. split; [lia |]. split; [exact Hl |].
+  split; [rewrite <- Hsz; exact Hd |]. split; [rewrite <- Hsz; exact Ht |].
+  unfold x_ensure. destruct (x_asize x <? n + 1); [| lia]. cbn [x_asize]. apply x_newasize_ge.
+Qed.
+
+(* iwxstr_printf_alloc: from the zeroed struct the first cat allocates exactly len + 1 bytes *)
+Theorem x_printf_alloc_spec : forall bs,
+  x_inv (x_printf_alloc bs) /\ x_data (x_printf_alloc bs) = bs /\ x_asize (x_printf_alloc bs) = length bs + 1.
+Proof.
+  intros bs. unfold x_printf_alloc, x_cat, x_zero, x_ensure. cbn [x_size x_asize x_mem Nat.add].
+  assert (E : (0 <? length bs + 1) = true) by (apply Nat.ltb_lt; lia). rewrite E.
+  unfold x_newasize. rewrite E. cbn [Nat.mul Nat.add]. rewrite E.
+  cbn [x_mem x_size x_asize Nat.add].
+  set (m := xwrite (xresize [] (length bs + 1)) 0 bs).
+  assert (Hr : length (xresize [] (length bs + 1)) = length bs + 1) by apply xresize_length.
+  assert (Hml : length m = length bs + 1) by (unfold m; rewrite xwrite_length; lia).
+  destruct (mk_term_inv m (length bs) (length bs + 1) Hml) as [H1 H2]; [lia |].
+  split; [exact H1 |]. split; [| reflexivity].
+  rewrite H2. unfold m.
+  assert (H := xwrite_firstn_end (xresize [] (length bs + 1)) 0 bs ltac:(lia)). cbn [Nat.add firstn app] in H. exact H.
+Qed.
+
+Theorem x_new_printf_spec : forall bs, x_inv (x_new_printf bs) /\ x_data (x_new_printf bs) = bs.
+Proof.
+  intros bs. unfold x_new_printf. destruct (x_create_inv AUNIT) as [H1 H2].
+  destruct (x_cat_spec (x_create AUNIT) bs 0%Z H1) as [H3 H4]. split; [exact H3 |]. rewrite H4, H2. reflexivity.
+Qed.
+
+(* ---------------------------------------------------------------- simulation *)
+Lemma obs_eq : forall x' s' t (rc : xrc), x_invt x' t -> x_data x' = s' ->
+  (rc, x_size x', x_data x', x_term x') = (rc, length s', s', t).
+Proof.
+  intros x' s' t rc Hinv Hd.
+  assert (Hl : length (x_data x') = x_size x') by (apply (x_data_length x' t); exact Hinv).
   destruct Hinv as [_ [_ Ht]]. unfold x_term. rewrite Ht. rewrite <- Hd, Hl. reflexivity.
 Qed.
 
-Theorem x_step_refines : forall x op, x_inv x ->
-  x_inv (fst (x_step x op)) /\
-  x_data (fst (x_step x op)) = fst (s_step (x_data x) op) /\
-  snd (x_step x op) = snd (s_step (x_data x) op).
+Definition xrel (x : xstr) (st : tstate) : Prop := x_invt x (snd st) /\ x_data x = fst st.
+Definition op_ok (st : tstate) (op : xop) : Prop := match op with XSetSize n => n <= length (fst st) | _ => True end.
+
+Theorem x_step_refines : forall x st op, xrel x st -> op_ok st op ->
+  xrel (fst (x_step x op)) (fst (s_step st op)) /\ snd (x_step x op) = snd (s_step st op).
 Proof.
-  intros x op Hinv. destruct op as [b | b | n | n | p b | |]; unfold x_step, s_step; cbv beta zeta.
-  all: try cbn [fst snd].
-  - destruct (x_cat_spec x b Hinv) as [H1 H2].
-    split; [exact H1 |]. split; [exact H2 |]. apply obs_eq; assumption.
-  - destruct (x_unshift_spec x b Hinv) as [H1 H2].
-    split; [exact H1 |]. split; [exact H2 |]. apply obs_eq; assumption.
-  - destruct (x_shift_spec x n Hinv) as [H1 H2].
-    split; [exact H1 |]. split; [exact H2 |]. apply obs_eq; assumption.
-  - destruct (x_pop_spec x n Hinv) as [H1 H2].
-    split; [exact H1 |]. split; [exact H2 |]. apply obs_eq; assumption.
-  - destruct (x_insert_spec x p b Hinv) as [H1 [H2 H3]].
-    assert (Hdl : length (x_data x) = x_size x) by (apply x_data_length; exact Hinv).
+  intros x [s t] op [Hinv Hd] Hok. cbn [fst snd] in Hinv, Hd, Hok. subst s.
+  assert (Hdl : length (x_data x) = x_size x) by (apply (x_data_length x t); exact Hinv).
+  destruct op as [b | b | n | n | p b | | | n]; unfold x_step, s_step, xrel; cbv beta zeta.
+  - destruct (x_cat_spec x b t Hinv) as [H1 H2]. cbn [fst snd].
+    split; [split; [exact H1 | exact H2] |]. apply obs_eq; assumption.
+  - destruct (x_unshift_spec x b t Hinv) as [H1 H2]. cbn [fst snd].
+    split; [split; [exact H1 | exact H2] |]. apply obs_eq; assumption.
+  - destruct (x_shift_spec x n t Hinv) as [H1 H2].
+    destruct (Nat.eqb n 0) eqn:E; cbn [fst snd].
+    + apply Nat.eqb_eq in E. subst n. cbn [skipn] in H2.
+      split; [split; [exact H1 | exact H2] |]. apply obs_eq; assumption.
+    + split; [split; [exact H1 | exact H2] |]. apply obs_eq; assumption.
+  - destruct (x_pop_spec x n t Hinv) as [H1 H2].
+    destruct (Nat.eqb n 0) eqn:E; cbn [fst snd].
+    + apply Nat.eqb_eq in E. subst n. rewrite Nat.sub_0_r, firstn_all in H2.
+      split; [split; [exact H1 | exact H2] |]. apply obs_eq; assumption.
+    + split; [split; [exact H1 | exact H2] |]. apply obs_eq; assumption.
+  - destruct (x_insert_spec x p b t Hinv) as [H1 [H2 H3]].
     destruct (x_insert x p b) as [x' rc] eqn:Ei. cbn [fst snd] in *.
     destruct (length (x_data x) <? p) eqn:E; [apply Nat.ltb_lt in E | apply Nat.ltb_ge in E];
       rewrite Hdl in E; cbn [fst snd].
     + destruct (H2 E) as [Hrc Hd]. subst rc.
-      split; [exact H1 |]. split; [exact Hd |]. apply obs_eq; assumption.
+      split; [split; [exact H1 | exact Hd] |]. apply obs_eq; assumption.
     + destruct (H3 E) as [Hrc Hd]. subst rc.
-      split; [exact H1 |]. split; [exact Hd |]. apply obs_eq; assumption.
-  - destruct (x_clear_spec x Hinv) as [H1 H2].
-    split; [exact H1 |]. split; [exact H2 |]. apply obs_eq; assumption.
-  - destruct (x_clone_spec x Hinv) as [H1 [H2 H3]].
-    split; [exact Hinv |]. split; [reflexivity |]. apply obs_eq; assumption.
+      split; [split; [exact H1 | exact Hd] |]. apply obs_eq; assumption.
+  - destruct (x_clear_spec x t Hinv) as [H1 H2]. cbn [fst snd].
+    split; [split; [exact H1 | exact H2] |]. apply obs_eq; assumption.
+  - destruct (x_clone_spec x t Hinv) as [H1 [H2 H3]]. cbn [fst snd].
+    split; [split; [exact Hinv | reflexivity] |]. apply (obs_eq (x_clone x) (x_data x) 0%Z); assumption.
+  - cbn [op_ok fst] in Hok. rewrite Hdl in Hok.
+    destruct (x_set_size_shrink x n t Hinv Hok) as [H1 [H2 H3]]. cbn [fst snd].
+    split; [split; [exact H1 | exact H2] |]. apply obs_eq; assumption.
 Qed.
 
-Lemma x_run_refines : forall ops x, x_inv x -> x_run x ops = s_run (x_data x) ops.
+Lemma x_run_refines : forall ops x st, xrel x st -> sz_ok st ops -> x_run x ops = s_run st ops.
 Proof.
-  induction ops as [| op t IH]; intros x Hinv.
-  - reflexivity.
-  - simpl. destruct (x_step_refines x op Hinv) as [H1 [H2 H3]].
-    destruct (x_step x op) as [x' o]. destruct (s_step (x_data x) op) as [s' o'].
-    simpl in *. subst o' s'. f_equal. apply IH. exact H1.
+  induction ops as [| op t IH]; intros x st Hrel Hok; [reflexivity |].
+  cbn [x_run s_run sz_ok] in *. destruct Hok as [Hop Hrest].
+  assert (Hop' : op_ok st op) by (destruct op; exact I || exact Hop).
+  destruct (x_step_refines x st op Hrel Hop') as [H1 H2].
+  destruct (x_step x op) as [x' o]. destruct (s_step st op) as [s' o'].
+  cbn [fst snd] in *. subst o'. f_equal. apply IH; assumption.
 Qed.
 
-Theorem xstr_refines_bytes : forall siz ops, x_run (x_create siz) ops = s_run [] ops.
+Lemma x_exec_rel : forall ops x st, xrel x st -> sz_ok st ops -> xrel (x_exec x ops) (xs_exec st ops).
 Proof.
-  intros siz ops. destruct (x_create_inv siz) as [H1 H2].
-  rewrite <- H2. apply x_run_refines. exact H1.
+  induction ops as [| op t IH]; intros x st Hrel Hok; [exact Hrel |].
+  unfold x_exec, xs_exec. cbn [fold_left]. cbn [sz_ok] in Hok. destruct Hok as [Hop Hrest].
+  assert (Hop' : op_ok st op) by (destruct op; exact I || exact Hop).
+  destruct (x_step_refines x st op Hrel Hop') as [H1 _]. apply IH; assumption.
+Qed.
+
+Lemma xrel_create : forall siz, xrel (x_create siz) ([], 0%Z).
+Proof. intros siz. destruct (x_create_inv siz) as [H1 H2]. split; assumption. Qed.
+
+(* ONE statement over operation lists (cat, unshift, shift, pop, insert, clear, clone, set_size): every call answers as the
+   byte string reference does - return code, size, data AND the byte where the terminator belongs - provided no set_size grows
+   the string (sz_ok); and the state keeps its invariant: buffer length = asize, size < asize, data = reference *)
+Theorem xstr_refines_bytes : forall siz ops, sz_ok ([], 0%Z) ops ->
+  x_run (x_create siz) ops = s_run ([], 0%Z) ops /\
+  let x := x_exec (x_create siz) ops in
+  let st := xs_exec ([], 0%Z) ops in
+  length (x_mem x) = x_asize x /\ x_size x < x_asize x /\ x_data x = fst st /\ x_term x = snd st /\ x_size x = length (fst st).
+Proof.
+  intros siz ops Hok. split; [apply x_run_refines; [apply xrel_create | exact Hok] |].
+  cbv zeta. destruct (x_exec_rel ops _ _ (xrel_create siz) Hok) as [[Hl [Hs Ht]] Hd].
+  split; [exact Hl |]. split; [exact Hs |]. split; [exact Hd |]. split; [exact Ht |].
+  rewrite <- Hd. unfold x_data. rewrite firstn_length_le by lia. reflexivity.
+Qed.
+
+(* without set_size nothing is assumed and the string is terminated after every call *)
+Lemma sz_ok_no_set_size : forall ops st, Forall no_set_size ops -> sz_ok st ops.
+Proof.
+  induction ops as [| op t IH]; intros st H; [exact I |]. cbn [sz_ok].
+  inversion H as [| ? ? Hop Ht]; subst. split; [destruct op; try exact I; destruct Hop | apply IH; exact Ht].
+Qed.
+
+Lemma no_set_size_term : forall ops st, Forall no_set_size ops -> snd st = 0%Z -> snd (xs_exec st ops) = 0%Z.
+Proof.
+  induction ops as [| op t IH]; intros [s z] H Hz; [exact Hz |]. cbn [snd] in Hz. subst z.
+  inversion H as [| ? ? Hop Ht]; subst. unfold xs_exec. cbn [fold_left]. apply IH; [exact Ht |].
+  destruct op as [b | b | n | n | p b | | | n]; cbn [s_step fst snd]; try reflexivity.
+  - destruct (Nat.eqb n 0); reflexivity.
+  - destruct (Nat.eqb n 0); reflexivity.
+  - destruct (length s <? p); reflexivity.
+  - destruct Hop.
+Qed.
+
+Theorem xstr_refines_bytes_terminated : forall siz ops, Forall no_set_size ops ->
+  x_run (x_create siz) ops = s_run ([], 0%Z) ops /\
+  x_inv (x_exec (x_create siz) ops) /\ x_data (x_exec (x_create siz) ops) = fst (xs_exec ([], 0%Z) ops).
+Proof.
+  intros siz ops H. assert (Hok := sz_ok_no_set_size ops ([], 0%Z) H).
+  split; [apply x_run_refines; [apply xrel_create | exact Hok] |].
+  destruct (x_exec_rel ops _ _ (xrel_create siz) Hok) as [Hi Hd].
+  rewrite (no_set_size_term ops ([], 0%Z) H eq_refl) in Hi. split; assumption.
+Qed.
+
+(* ---------------------------------------------------------------- user data: the destructor runs exactly once per datum *)
+(* data installed with a destructor, in order *)
+Fixpoint xu_installed (ops : list xuop) : list (option nat) :=
+  match ops with
+  | [] => []
+  | XUSet d true :: t => d :: xu_installed t
+  | _ :: t => xu_installed t
+  end.
+
+(* the destructor calls a life of the string makes, given the datum currently guarded by a destructor (p = [] : none) *)
+Fixpoint xu_freed (p : list (option nat)) (ops : list xuop) : list (option nat) :=
+  match ops with
+  | [] => p
+  | XUSet d fn :: t => p ++ xu_freed (if fn then [d] else []) t
+  | XUGet :: t => xu_freed p t
+  | XUDetach :: t => xu_freed [] t
+  end.
+
+Definition xu_pending (u : xud) : list (option nat) := if xu_fn u then [xu_data u] else [].
+
+Lemma xu_destroy_exec : forall ops u, xu_destroy (xu_exec u ops) = xu_log u ++ xu_freed (xu_pending u) ops.
+Proof.
+  induction ops as [| op t IH]; intros u.
+  - unfold xu_exec, xu_destroy, xu_pending. cbn [fold_left xu_freed]. destruct (xu_fn u); [reflexivity | rewrite app_nil_r; reflexivity].
+  - unfold xu_exec in *. cbn [fold_left]. rewrite IH.
+    destruct op as [d fn | |]; cbn [xu_step xu_freed].
+    + unfold xu_set, xu_pending. cbn [xu_log xu_fn xu_data].
+      destruct (xu_fn u); [rewrite <- app_assoc; reflexivity | reflexivity].
+    + reflexivity.
+    + unfold xu_detach, xu_pending. cbn [fst xu_log xu_fn xu_data]. reflexivity.
+Qed.
+
+Lemma xu_freed_in : forall ops p d, In d (xu_freed p ops) -> In d p \/ In d (xu_installed ops).
+Proof.
+  induction ops as [| op t IH]; intros p d H; [left; exact H |].
+  destruct op as [d' fn | |]; cbn [xu_freed xu_installed] in *.
+  - apply in_app_or in H. destruct H as [H | H]; [left; exact H |].
+    destruct fn.
+    + destruct (IH _ _ H) as [[H1 | []] | H1]; [right; left; exact H1 | right; right; exact H1].
+    + destruct (IH _ _ H) as [[] | H1]. right. exact H1.
+  - apply IH. exact H.
+  - destruct (IH _ _ H) as [[] | H1]. right. exact H1.
+Qed.
+
+Lemma nd_app_r : forall (A : Type) (a b : list A), NoDup (a ++ b) -> NoDup b.
+Proof. induction a as [| x a IH]; intros b H; [exact H |]. inversion H; subst. apply IH. assumption. Qed.
+Lemma nd_app_l : forall (A : Type) (a b : list A), NoDup (a ++ b) -> NoDup a.
+Proof.
+  induction a as [| x a IH]; intros b H; [constructor |]. inversion H as [| ? ? Hn Hr]; subst.
+  constructor; [intro Hin; apply Hn; apply in_or_app; left; exact Hin | apply (IH b); exact Hr].
+Qed.
+
+Lemma xu_freed_nodup : forall ops p, NoDup (p ++ xu_installed ops) -> NoDup (xu_freed p ops).
+Proof.
+  induction ops as [| op t IH]; intros p H; [cbn [xu_freed xu_installed] in *; rewrite app_nil_r in H; exact H |].
+  destruct op as [d fn | |]; cbn [xu_freed xu_installed] in *.
+  - destruct fn.
+    + assert (H2 : NoDup ([d] ++ xu_installed t)) by (apply nd_app_r in H; exact H).
+      assert (H1 : NoDup p) by (apply nd_app_l in H; exact H).
+      specialize (IH [d] H2).
+      (* p and the rest are disjoint *)
+      clear H2. revert H. induction p as [| a p IHp]; intros H; [exact IH |].
+      cbn [app] in *. inversion H as [| ? ? Hn Hr]; subst. inversion H1; subst. constructor; [| apply IHp; assumption].
+      intro Hin. apply Hn. apply in_app_or in Hin. apply in_or_app. destruct Hin as [Hin | Hin]; [left; exact Hin | right].
+      destruct (xu_freed_in t [d] a Hin) as [[E | []] | E]; [left; exact E | right; exact E].
+    + assert (H2 : NoDup ([] ++ xu_installed t)) by (apply nd_app_r in H; exact H).
+      assert (H1 : NoDup p) by (apply nd_app_l in H; exact H).
+      specialize (IH [] H2). clear H2. revert H. induction p as [| a p IHp]; intros H; [exact IH |].
+      cbn [app] in *. inversion H as [| ? ? Hn Hr]; subst. inversion H1; subst. constructor; [| apply IHp; assumption].
+      intro Hin. apply Hn. apply in_app_or in Hin. apply in_or_app. destruct Hin as [Hin | Hin]; [left; exact Hin | right].
+      destruct (xu_freed_in t [] a Hin) as [[] | E]. exact E.
+  - apply IH. exact H.
+  - apply IH. apply nd_app_r in H. exact H.
+Qed.
+
+Lemma xu_freed_no_detach : forall ops p, Forall (fun op => op <> XUDetach) ops -> xu_freed p ops = p ++ xu_installed ops.
+Proof.
+  induction ops as [| op t IH]; intros p H; [cbn; rewrite app_nil_r; reflexivity |].
+  inversion H as [| ? ? Hop Ht]; subst.
+  destruct op as [d fn | |]; cbn [xu_freed xu_installed].
+  - rewrite IH by exact Ht. destruct fn; reflexivity.
+  - apply IH. exact Ht.
+  - congruence.
+Qed.
+
+(* OWNERSHIP of the user datum over every sequence of user_data_set / get / detach calls followed by iwxstr_destroy (or
+   iwxstr_destroy_keep_ptr): the destructor calls are [xu_freed]; every datum destroyed was installed with a destructor; with
+   pairwise distinct data no datum is destroyed twice; without a detach every datum installed with a destructor is destroyed
+   exactly once, in the order of installation *)
+Theorem xud_destroyed_once : forall ops,
+  xu_destroy (xu_exec xu_new ops) = xu_freed [] ops /\
+  (forall d, In d (xu_freed [] ops) -> In d (xu_installed ops)) /\
+  (NoDup (xu_installed ops) -> NoDup (xu_freed [] ops)) /\
+  (Forall (fun op => op <> XUDetach) ops -> xu_freed [] ops = xu_installed ops).
+Proof.
+  intros ops. split; [apply (xu_destroy_exec ops xu_new) |]. split; [| split].
+  - intros d H. destruct (xu_freed_in ops [] d H) as [[] | H1]. exact H1.
+  - intros H. apply xu_freed_nodup. exact H.
+  - intros H. apply (xu_freed_no_detach ops [] H).
+Qed.
+
+(* ---------------------------------------------------------------- iwxstr_wrap *)
+(* a heap buffer of max(asize, 1) bytes holding size <= asize data bytes: the result is terminated, holds the data, and owns a
+   buffer with room for the terminator (reallocated to size + 1 when the caller's buffer is full) *)
+Theorem x_wrap_spec : forall buf size asize, length buf = Nat.max asize 1 -> size <= asize ->
+  x_inv (x_wrap buf size asize) /\ x_data (x_wrap buf size asize) = firstn size buf /\
+  x_asize (x_wrap buf size asize) = (if asize <=? size then size + 1 else asize).
+Proof.
+  intros buf size asize Hl Hs. unfold x_wrap.
+  destruct (asize <=? size) eqn:E; [apply Nat.leb_le in E | apply Nat.leb_gt in E].
+  - assert (Hr : length (xresize buf (size + 1)) = size + 1) by apply xresize_length.
+    destruct (mk_term_inv (xresize buf (size + 1)) size (size + 1) Hr) as [H1 H2]; [lia |].
+    split; [exact H1 |]. split; [| reflexivity]. rewrite H2.
+    unfold xresize. rewrite firstn_app. rewrite firstn_firstn.
+    replace (Nat.min size (size + 1)) with size by lia.
+    rewrite firstn_length. replace (size - Nat.min (size + 1) (length buf)) with 0 by lia.
+    cbn [firstn]. apply app_nil_r.
+  - assert (Hb : length buf = asize) by lia.
+    destruct (mk_term_inv buf size asize Hb E) as [H1 H2].
+    split; [exact H1 |]. split; [exact H2 | reflexivity].
 Qed.
